@@ -217,9 +217,13 @@ func (g *Gen) genTx(fam string) *world.TxJSON {
 			}
 		}
 		nonce, val := uint64(1+g.R.Intn(3)), big.NewInt(1)
+		var held *spec.Meta // the metadata of the entry the call is aimed at, when the caller holds it
 		if len(own) > 0 && g.R.Intn(8) != 0 {
 			h := own[g.R.Intn(len(own))]
 			nonce, val = h.Nonce, h.Value
+			if h.Tok != nil {
+				held = h.Tok.Meta
+			}
 		}
 		if tt := g.W.Tok(tok); tt != nil && g.R.Intn(3) == 0 {
 			// a nonce for which this account was sent a single-NFT freeze (it may hold only the placeholder)
@@ -240,11 +244,20 @@ func (g *Gen) genTx(fam string) *world.TxJSON {
 		case "adduri":
 			for i := 1 + g.R.Intn(2); i > 0; i-- {
 				u := g.randBytes(10)
+				if held != nil && len(held.URIs) > 0 && g.R.Intn(6) == 0 {
+					// a URI the entry already lists
+					u = append([]byte{}, held.URIs[g.R.Intn(len(held.URIs))]...)
+				}
 				args = append(args, u)
 				extra += uint64(len(u)) * nd.Sched.Base["StorePerByte"]
 			}
 		case "updattr":
 			u := g.randBytes(24)
+			if held != nil && len(held.Attributes) > 0 && g.R.Intn(4) == 0 {
+				// the attributes the entry already has: an update that changes nothing is still an update
+				// (priced, gated and role-checked like any other)
+				u = append([]byte{}, held.Attributes...)
+			}
 			args = append(args, u)
 			extra += uint64(len(u)) * nd.Sched.Base["StorePerByte"]
 			if g.R.Intn(20) == 0 {
